@@ -20,7 +20,8 @@ RULE = ("Hypothesis generates a list of 1-6 unrelated arguments mixing trashable
 ASSUMPTIONS = ["arguments never alias, contain or point to each other (by construction)",
                "'naming' a non-UTF-8 argument = its backslash-escaped form appears on stderr"]
 
-ARGK = ["file", "file", "tree", "link_dangling", "link_file", "nonexistent", "dot", "raw", "badvol", "dup"]
+ARGK = ["file", "file", "tree", "link_dangling", "link_file", "nonexistent", "dot", "raw", "badvol", "dup",
+        "goodvol", "goodvol"]
 
 
 def examples(tier):
@@ -50,12 +51,12 @@ def strategy(tier):
 
 def build(case):
     home = "/home/u"
-    vols = ["/bad"]
+    vols = ["/bad", "/good"]
     uid = case["uid"]
     nodes = [{"p": home + "/cwd/dotdir/keep", "t": "f", "c": "keep"},
              {"p": home + "/cwd/dotdir/sub", "t": "d"}, {"p": home + "/w", "t": "d"},
              {"p": "/bad/.Trash-%d" % uid, "t": "f", "c": "not a directory"},
-             {"p": "/bad/w", "t": "d"}, {"p": "/elsewhere/t", "t": "f", "c": "t"}]
+             {"p": "/bad/w", "t": "d"}, {"p": "/good/w", "t": "d"}, {"p": "/elsewhere/t", "t": "f", "c": "t"}]
     args, metas = [], []
     first_ok = None
     for k, nm in zip(case["kinds"], case["names"]):
@@ -80,6 +81,9 @@ def build(case):
         elif k == "badvol":
             p = "/bad/w/" + nm
             nodes.append({"p": p, "t": "f", "c": "cannot be trashed"})
+        elif k == "goodvol":
+            p = "/good/w/" + nm
+            nodes.append({"p": p, "t": "f", "c": "on the good volume"})
         elif k == "dot":
             p = case["dot"]
         if k in ("file", "tree", "link_dangling", "link_file") and first_ok is None:
@@ -99,6 +103,7 @@ def run_one(spec, opts, files, stdin):
     pa = putcheck.PutAnalysis(before, after, sandbox.read_bytes, spec["vols"])
     states = []
     done = {}
+    where = {}
     for a in files:
         ident = putcheck.identity(before, a, spec["cwd"])
         if ident is None:
@@ -106,8 +111,12 @@ def run_one(spec, opts, files, stdin):
         elif ident[1] in done:
             states.append(done[ident[1]])  # duplicate: same entry, same snapshot verdict
         else:
-            states.append(pa.state_of(ident[1], exclude=[])[0])
-            done[ident[1]] = states[-1]
+            st_, info = pa.state_of(ident[1], exclude=[])
+            states.append(st_)
+            done[ident[1]] = st_
+            if st_ == "T":
+                where[a] = pa.new_payloads[info][0]
+    pa.where = where
     return res, states, pa
 
 
@@ -137,7 +146,10 @@ def run_case(case):
         alone_arg = a
         if is_dup and m != "dot" and statesA[args.index(a)] == "T":
             alone_arg = a + "-gone"  # the first occurrence took it away
-        resB, statesB, _ = run_one(spec, opts, [alone_arg], stdin)
+        resB, statesB, paB = run_one(spec, opts, [alone_arg], stdin)
+        if not is_dup and a in paA.where and alone_arg in paB.where and paA.where[a] != paB.where[alone_arg]:
+            out.fail("trash_dir_differs", "argument %r (%s) went to %s in the list %r but to %s alone" % (
+                a, m, paA.where[a], args, paB.where[alone_arg]), **dict(tags, arg=m))
         sa, sb = statesA[i], statesB[0]
         if is_dup:
             sa = "N" if sa in ("N", "T", "U") and statesA[args.index(a)] == "T" else sa
